@@ -171,12 +171,12 @@ pub(crate) mod kani_verif {
             }
         };
     }
-    // @h name=c07_lms_sign_h5 props=C07,C03,C01,C05 tier=thorough kind=proved cfg=w8 timeout=2400 funcs=LmsSignature::sign;LmsSignature::build_authentication_path;LmsPrivateKey::use_lmots_private_key;LmsSignature::to_binary_representation contract="RFC 8554 Alg. 5: uses leaf q = current counter, then counter+1; refuses at 2^h; path[i] = T[((2^h+q)>>i)^1]; bytes = u32(q)||lmots||u32(type)||path; every q (all 2^32), I, C, message; callees by contract; h=5"
+    // @h name=c07_lms_sign_h5 props=C07,C03,C01,C05 tier=extended kind=proved cfg=w8 timeout=2400 funcs=LmsSignature::sign;LmsSignature::build_authentication_path;LmsPrivateKey::use_lmots_private_key;LmsSignature::to_binary_representation contract="RFC 8554 Alg. 5: uses leaf q = current counter, then counter+1; refuses at 2^h; path[i] = T[((2^h+q)>>i)^1]; bytes = u32(q)||lmots||u32(type)||path; every q (all 2^32), I, C, message; callees by contract; h=5"
     h!(c07_lms_sign_h5, 5);
-    // @h name=c07_lms_sign_h10 props=C07,C03,C01,C05 tier=thorough kind=proved cfg=w8 timeout=2400 funcs=LmsSignature::sign;LmsSignature::build_authentication_path;LmsPrivateKey::use_lmots_private_key contract="same, h=10"
+    // @h name=c07_lms_sign_h10 props=C07,C03,C01,C05 tier=extended kind=proved cfg=w8 timeout=2400 funcs=LmsSignature::sign;LmsSignature::build_authentication_path;LmsPrivateKey::use_lmots_private_key contract="same, h=10"
     h!(c07_lms_sign_h10, 6);
-    // @h name=c07_lms_sign_h25 props=C07,C03,C01,C05 tier=thorough kind=proved cfg=w8 timeout=3600 funcs=LmsSignature::sign;LmsSignature::build_authentication_path;LmsPrivateKey::use_lmots_private_key contract="same, h=25"
+    // @h name=c07_lms_sign_h25 props=C07,C03,C01,C05 tier=extended kind=proved cfg=w8 timeout=3600 funcs=LmsSignature::sign;LmsSignature::build_authentication_path;LmsPrivateKey::use_lmots_private_key contract="same, h=25"
     h!(c07_lms_sign_h25, 9);
-    // @h name=c07_lms_sign_h2 props=C07,C03,C01,C05 tier=thorough kind=proved cfg=w8 timeout=2400 funcs=LmsSignature::sign;LmsSignature::build_authentication_path;LmsPrivateKey::use_lmots_private_key contract="same, hook height 2"
+    // @h name=c07_lms_sign_h2 props=C07,C03,C01,C05 tier=extended kind=proved cfg=w8 timeout=2400 funcs=LmsSignature::sign;LmsSignature::build_authentication_path;LmsPrivateKey::use_lmots_private_key contract="same, hook height 2"
     h!(c07_lms_sign_h2, 1);
 }
